@@ -3,6 +3,7 @@ package dockerlog
 
 import (
 	"context"
+	"slices"
 	"strconv"
 	"strings"
 
@@ -161,8 +162,15 @@ func getLabels(ctr types.Container) containerLabels {
 		"container_state":    ctr.State,
 		"container_status":   ctr.Status,
 	}
-	for label, value := range ctr.Labels {
-		labels[otelstorage.KeyToLabel(label)] = value
+	// Different Docker labels may get the same name (`app.role` and `app_role`):
+	// go through them in a fixed order, so that the same one wins every time.
+	names := make([]string, 0, len(ctr.Labels))
+	for label := range ctr.Labels {
+		names = append(names, label)
+	}
+	slices.Sort(names)
+	for _, label := range names {
+		labels[otelstorage.KeyToLabel(label)] = ctr.Labels[label]
 	}
 	return containerLabels{
 		labels: labels,
